@@ -10,7 +10,7 @@ from pathlib import Path
 
 from .. import util
 from ..core import LEAN, REPO, Infra, Prop, Violation, import_repo, show_bool, write_if_changed
-from ..extract import e3_lysosome, py2lean_lysosome
+from ..extract import e3_lysosome, e3_lysosome_clients, py2lean_lysosome
 
 TYPES = ["mis", "exp", "fop", "orp", "tox"]
 RETS = [0, 3515625, 900_000_000, 3_600_000_000, 86_400_000_000, -3_600_000_000]   # µs; exact as float hours
@@ -177,7 +177,7 @@ METHOD_OF = {"prune": "ingest", "ingest": "ingest", "ingestat": "ingest", "inges
 class C13(Prop):
     id = "C13"
     title = "Waste handling never hangs, stays bounded and accounts for every item"
-    extractors = ["E3-lysosome", "py2lean-lysosome"]
+    extractors = ["E3-lysosome", "E3-lysosome-clients", "py2lean-lysosome"]
     fixed_prefix = 1
     quick_budget = 2200
     thorough_budget = 40000
@@ -193,7 +193,8 @@ class C13(Prop):
         "threading.Lock / RLock semantics as in Operon.Lysosome.Step; loops over the queue are finite",
         "thread switches happen between source lines (the scheduler search is line-granular); `x += 1` on a counter "
         "outside the lock is treated as one atomic line",
-        "console output is off (silent=True); `utilization`, priority, source and metadata are not modelled",
+        "console output goes to a sink (a fifth of the configurations run with silent=False); `utilization`, priority, "
+        "source and metadata are not modelled (the harness varies them)",
         "a custom digester registered for TOXIC_BYPRODUCT replaces the built-in one: the two toxic clauses are "
         "stated for the built-in toxic digester",
     ]
@@ -229,6 +230,7 @@ class C13(Prop):
                 return prop.clock.now()
         L.datetime = FakeDT
         AD.datetime = FakeDT
+        L.print = AD.print = lambda *a, **k: None        # silent=False runs: the console is a sink
         # Waste.created_at's default factory captured the real datetime.now when the class was built: give the
         # DEFAULT (and only the default - an explicit created_at, whoever passes it, is left alone) the fake clock
         if not getattr(L.Waste.__init__, "_vf_clock", False):
@@ -261,8 +263,13 @@ class C13(Prop):
         text, facts = e3_lysosome.extract(REPO)
         changed = write_if_changed(LEAN / "Operon" / "Gen" / "LysosomeLocks.lean", text)
         self.facts = facts
+        ctext, cfacts = e3_lysosome_clients.extract(REPO, self.L, self.AD, self.clock)
+        cchanged = write_if_changed(LEAN / "Operon" / "Gen" / "LysosomeClients.lean", ctext)
         return ([{"id": "E3-lysosome", "facts_changed": changed, "lock_kind": facts["kind"],
-                  "recognised": facts["recognised"]}]
+                  "recognised": facts["recognised"]},
+                 {"id": "E3-lysosome-clients", "facts_changed": cchanged, "recognised": cfacts["recognised"],
+                  "sites": [list(x) for x in cfacts["sites"]], "probed_runs": len(cfacts["runs"]),
+                  "pruning_runs": sum(1 for r in cfacts["runs"] if r[1])}]
                 + py2lean_lysosome.run(REPO, LEAN, write_if_changed))
 
     # --- generation --------------------------------------------------------------------------------------
@@ -282,7 +289,7 @@ class C13(Prop):
         if r < 0.36:
             return f"ingest {rng.choice(TYPES)} {i} {c}"
         if r < 0.40:
-            return f"prune {i} {rng.choice([1, 1, 1, 0])}"
+            return f"prune {i} {rng.choice([1, 1, 2, 2, 0, 3])}"
         if r < 0.47:
             return f"ingest_error {i} {max(1, c)}"
         if r < 0.56:
@@ -358,9 +365,15 @@ class C13(Prop):
             lines.append(f"ingest {rng.choice(TYPES)} {nid} {rng.choice([0, 0, 2, 3])}")
         for _ in range(rng.randint(1, 3)):
             nid += 1
-            lines.append(rng.choice([f"prune {nid} 1", f"prune {nid} 1", f"@1 prune {nid} 1", f"prune {nid} 0",
-                                     f"ingest exp {nid} 0", "digest 1"]))
-        lines.append(rng.choice(["digest none", "digest 1", "autophagy"]))
+            lines.append(rng.choice([f"prune {nid} 1", f"prune {nid} 2", f"@1 prune {nid} 1", f"prune {nid} 0",
+                                     f"prune {nid} 3", f"@2 prune {nid} 2", f"ingest exp {nid} 0", "digest 1"]))
+        # ... and the lysosome's own self-cleaning / digestion meets the daemon's items, before and after they expire
+        for _ in range(rng.randint(1, 3)):
+            nid += 1
+            lines.append(rng.choice(["digest none", "digest 1", "autophagy", "autophagy", f"@1 autophagy",
+                                     f"adv {rng.choice([1, 3515625, 3600000000, 86400000000])}",
+                                     f"prune {nid} {rng.choice([1, 2])}", f"ingest_error {nid} 2"]))
+        lines.append(rng.choice(["digest none", "autophagy", "autophagy"]))
         return lines
 
     def _fault_then_other_thread(self, rng):
@@ -449,8 +462,16 @@ class C13(Prop):
             for ops in itertools.product(alpha2, repeat=k):
                 c2.append({"lines": ["cfg 4 5 3515625 ssss b set"] + [o.format(i=j + 1) for j, o in enumerate(ops)],
                            "note": f"two living threads, timezone-aware created_at, depth {k}"})
+        # the library's own client: daemon cycles (forced / critical fill) into a lysosome the application also uses,
+        # met by the lysosome's self-cleaning before and after the retention period, and by digest
+        alpha3 = ["prune {i} 1", "prune {i} 2", "ingest exp {i} 2", "autophagy", "adv 3515625", "digest 1", "@1 autophagy"]
+        for k in range(1, 4 if tier == "quick" else 5):
+            for ops in itertools.product(alpha3, repeat=k):
+                c2.append({"lines": ["cfg 4 3 3515625 ssss b set"] + [o.format(i=j + 1) for j, o in enumerate(ops)],
+                           "note": f"lysosome shared with the context-pruning daemon, depth {k}"})
         spaces.append({"name": "all histories of <= 3 (quick) / 4 (thorough) ops over {aware ingest, ingest, autophagy, "
-                               "digest} x {thread 0, thread 1}", "cases": c2})
+                               "digest} x {thread 0, thread 1}, and over {daemon cycle forced / at critical fill, ingest, "
+                               "autophagy, clock advance, digest}", "cases": c2})
         if tier != "quick":
             # every schedule prefix of 2 x 2 operations is too many; exhaust the *burst patterns* instead:
             # all 2-thread programs of one op each over {ingest, digest, autophagy} x 64 seeded schedules
@@ -473,7 +494,7 @@ class C13(Prop):
         L = self.L
         mq, at, ret, modes, tox, ontox = int(t[1]), int(t[2]), int(t[3]), t[4], t[5], t[6]
         ctx = {"mq": mq, "at": at, "modes": modes, "tox": tox, "ontox": ontox, "toxlog": [], "calls": [],
-               "seq": 0, "rep": 0, "exp": 0, "dead": False, "types": {}}
+               "seq": 0, "rep": 0, "exp": 0, "dead": False, "types": {}, "in_client": None, "client_ingests": []}
         WT = L.WasteType
         order = [WT.MISFOLDED_PROTEIN, WT.EXPIRED_CACHE, WT.FAILED_OPERATION, WT.ORPHANED_RESOURCE, WT.TOXIC_BYPRODUCT]
         ctx["order"] = order
@@ -519,16 +540,28 @@ class C13(Prop):
             if c["c"] == 0:
                 raise RuntimeError("on_toxic")
         ctx["on_toxic_fn"] = on_toxic
+        # console output: on for a fifth of the configurations (a pure function of the cfg line, so replays agree);
+        # what is printed goes to a sink, the behaviour must not depend on it
+        ctx["silent"] = (3 * mq + at) % 5 != 0
         lys = L.Lysosome(max_queue_size=mq, auto_digest_threshold=at, retention_hours=ret / 3_600_000_000,
-                         digesters=digesters or None, on_toxic=on_toxic if ontox == "set" else None, silent=True)
+                         digesters=digesters or None, on_toxic=on_toxic if ontox == "set" else None,
+                         silent=ctx["silent"])
         orig = lys.ingest
 
         def ingest_tagging(waste):
-            # the waste the AutophagyDaemon builds in check_and_prune gets the harness's tag; NOTHING else about it is
-            # touched (its created_at, priority, ... are what the library's own caller made them)
-            if not hasattr(waste, "vf") and ctx.get("daemon_vf") is not None:
-                waste.vf = ctx["daemon_vf"]
-                ctx["daemon_vf"] = None
+            # waste that one of the library's own callers (the AutophagyDaemon in check_and_prune) hands over gets the
+            # harness's tag and is counted; NOTHING else about it is touched (its created_at, priority, ... are what
+            # that caller made them)
+            if not hasattr(waste, "vf") and ctx.get("in_client") is not None:
+                seq = ctx["seq"]
+                try:
+                    waste.vf = (seq, ctx["in_client"])
+                    ty = TYPES[order.index(waste.waste_type)]
+                except Exception:  # noqa
+                    ty = "?"
+                ctx["types"][seq] = ty
+                ctx.setdefault("ids", {})[seq] = ctx["in_client"]
+                ctx["client_ingests"].append(ty)
                 ctx["seq"] += 1
             return orig(waste)
         lys.ingest = ingest_tagging
@@ -570,8 +603,10 @@ class C13(Prop):
             else:
                 created = self.clock.now()
             ty, i, c = t[1], int(t[2]), int(t[3])
+            # priority / source / metadata: unusual but legal values, a pure function of the line
             w = L.Waste(waste_type=ctx["order"][TYPES.index(ty)], content=self._content(ctx, ty, i, c),
-                        created_at=created)
+                        created_at=created, priority=[0, 10, -5, 7, 0, 3][(i + 2 * c) % 6],
+                        source=["", "h", "autophagy_daemon"][(i + c) % 3], metadata={"id": i} if c % 2 else {})
             w.vf = (ctx["seq"], i)
             ctx.setdefault("ids", {})[ctx["seq"]] = i
             ctx["types"][ctx["seq"]] = ty
@@ -595,22 +630,22 @@ class C13(Prop):
             lys.ingest_sensitive({"c": c, "seq": seq, "id": i}, source="h")
             return "ok"
         if op == "prune":
-            # the AutophagyDaemon sharing this lysosome: check_and_prune flushes the raw context into it
-            i, force = int(t[1]), t[2] == "1"
-            if "daemon" not in ctx:
-                from operon_ai.healing.autophagy_daemon import AutophagyDaemon
+            # an AutophagyDaemon sharing this lysosome (two of them: odd / even ids): check_and_prune flushes the raw
+            # context into it.  mode 0: tiny context (nothing to do); 1: forced on a large one; 2: not forced, the
+            # context fills 90 % of the window (CRITICAL); 3: forced on a tiny context (below min_tokens_for_pruning)
+            i, mode = int(t[1]), int(t[2])
+            pruning = mode in (1, 2)
+            daemons = ctx.setdefault("daemons", {})
+            if i % 2 not in daemons:
                 from operon_ai.state.histone import HistoneStore
-                ctx["daemon"] = AutophagyDaemon(histone_store=HistoneStore(silent=True), lysosome=lys,
-                                                summarizer=lambda text: text[:40], silent=True)
-            if force:
-                ctx["types"][ctx["seq"]] = "exp"
-                ctx.setdefault("ids", {})[ctx["seq"]] = i
-                ctx["daemon_vf"] = (ctx["seq"], i)
-            context = "\n".join(f"step {k}: did something useful with the data" for k in range(120 if force else 2))
-            _new, res = ctx["daemon"].check_and_prune(context, 8000, force=force)
-            ctx["daemon_vf"] = None
-            if (res is not None) != force:
-                raise RuntimeError("harness: prune did not behave as scripted")
+                daemons[i % 2] = self.AD.AutophagyDaemon(histone_store=HistoneStore(silent=True), lysosome=lys,
+                                                         summarizer=lambda text: text[:40], silent=ctx["silent"])
+            context = "\n".join(f"step {k}: did something useful with the data" for k in range(120 if pruning else 2))
+            ctx["in_client"] = i
+            try:
+                daemons[i % 2].check_and_prune(context, 1500 if mode == 2 else 8000, force=mode in (1, 3))
+            finally:
+                ctx["in_client"] = None
             return "ok"
         if op == "digest":
             k = None if t[1] == "none" else int(t[1])
@@ -758,6 +793,7 @@ class C13(Prop):
                     obs.append("ok | " + d)
                 elif self._wellformed(t):
                     del ctx["lockev"][:]
+                    del ctx["client_ingests"][:]
                     if tid not in workers:
                         workers[tid] = Worker()
                     kind, val = workers[tid].call(lambda: self._do(ctx, t), timeout=self._timeout())
@@ -777,8 +813,9 @@ class C13(Prop):
                         d, snap = self._dump(ctx)
                         if kind == "raise":
                             snap["raise"] = type(val).__name__
+                        snap["client_ingests"] = list(ctx["client_ingests"])
                         facts = getattr(self, "facts", None)
-                        no_call = t[0] == "prune" and t[2] == "0"      # nothing to flush: the lysosome is not touched
+                        no_call = t[0] == "prune" and t[2] in ("0", "3")      # nothing to flush: the lysosome is not touched
                         if facts and facts.get("recognised") and not (
                                 evs == [] if no_call else trace_is_path(facts, METHOD_OF[t[0]], evs)):
                             d += " lock-trace-not-a-path-of-the-extracted-shape[" + ",".join(evs) + "]"
@@ -806,7 +843,7 @@ class C13(Prop):
         if t[0] == "ingest_sensitive":
             return len(t) == 3 and t[1].isdigit() and t[2].isdigit()
         if t[0] == "prune":
-            return len(t) == 3 and t[1].isdigit() and t[2] in ("0", "1")
+            return len(t) == 3 and t[1].isdigit() and t[2] in ("0", "1", "2", "3")
         if t[0] == "digest":
             return len(t) == 2 and (t[1] == "none" or isint(t[1]))
         if t[0] in ("autophagy", "clearbin"):
@@ -934,9 +971,12 @@ class C13(Prop):
                 if snap is not None and "bin" in snap:
                     prev_bin = snap["bin"]
                 continue
-            if t[0] == "prune" and t[2] == "1":      # the daemon ingests exactly one EXPIRED_CACHE item
-                types[n_ing] = "exp"
-                n_ing += 1
+            if t[0] == "prune":
+                # the daemon hands waste over "via Lysosome": every `ingest` call it made on the shared object (seen at
+                # the object's boundary) is one more ingested item, to be accounted for like any other
+                for ty in (snap or {}).get("client_ingests", []):
+                    types[n_ing] = ty
+                    n_ing += 1
             if t[0].startswith("ingest"):
                 types[n_ing] = "tox" if t[0] == "ingest_sensitive" else ("fop" if t[0] == "ingest_error" else
                                                                           (t[2] if t[0] == "ingestat" else t[1]))
